@@ -141,6 +141,7 @@ func main() {
 	out := flag.String("out", "", "output directory")
 	perShard := flag.Int("per-shard", 200, "cases per .v shard")
 	flag.Parse()
+	loadNovel()
 	run, ok := runners[*prop]
 	if !ok {
 		var ids []string
